@@ -384,17 +384,47 @@ func (w *world) nextStep() (kind string, err error) {
 // some, or none of the pending notifications), then both nodes are observed.
 func (w *world) epilogue(tag string, quiesce bool) {
 	for _, n := range w.nodes {
-		switch r := w.rng.Intn(20); {
-		case quiesce || r < 14:
+		// the head updater is an asynchronous FIFO consumer: between two looks
+		// of the monitor it may have consumed everything, a prefix, exactly one
+		// notification (slow phase) or nothing (stalled phase)
+		if quiesce {
 			n.drain(-1)
-		case r < 17 && len(n.obsQ) > 0:
-			k := w.rng.Intn(len(n.obsQ) + 1)
-			n.drain(k)
-			w.count("diffmanager.partial_drain", 1)
-		default:
+			n.stall, n.slow = 0, 0
+			continue
+		}
+		if n.stall > 0 {
+			n.stall--
 			if len(n.obsQ) > 0 {
 				w.count("diffmanager.no_drain", 1)
 			}
+			continue
+		}
+		if n.slow > 0 {
+			n.slow--
+			if len(n.obsQ) > 0 {
+				n.drain(1)
+				w.count("diffmanager.single_drain", 1)
+			}
+			continue
+		}
+		switch r := w.rng.Intn(20); {
+		case r < 11:
+			n.drain(-1)
+		case r < 13:
+			if len(n.obsQ) > 0 {
+				n.drain(w.rng.Intn(len(n.obsQ) + 1))
+				w.count("diffmanager.partial_drain", 1)
+			}
+		case r < 15:
+			if len(n.obsQ) > 0 {
+				w.count("diffmanager.no_drain", 1)
+			}
+		case r < 17:
+			n.stall = 1 + w.rng.Intn(3)
+			w.count("diffmanager.stall_phase", 1)
+		default:
+			n.slow = 2 + w.rng.Intn(6)
+			w.count("diffmanager.slow_phase", 1)
 		}
 	}
 	for _, n := range w.nodes {
